@@ -192,6 +192,56 @@ def drive(gen, answer, cap):
     return events, out
 
 
+def drive_iter(gen, answer, cap):
+    """drive() as a generator of its own: pauses after every command so that several sequences can be run interleaved.
+    The result (events, outcome) is the generator's return value."""
+    from dali.command import Command
+    events = []
+    send = None
+    out = {"exc": "none", "ret": None}
+    try:
+        while True:
+            item = gen.send(send)
+            if isinstance(item, Command):
+                if len(events) >= cap:
+                    out["exc"] = "nonterminating"
+                    gen.close()
+                    break
+                resp, ev = answer(item)
+                events.append(ev)
+                send = to_response(item, resp)
+                yield
+            else:
+                send = None
+    except StopIteration as s:
+        out["ret"] = s.value
+    except Exception as e:  # noqa: recorded
+        out["exc"] = type(e).__name__
+    return events, out
+
+
+def drive_interleaved(parts, cap, burst=1):
+    """parts = [(make_gen, answer)]: the sequences take turns, `burst` commands at a time; make_gen() is called at the
+    sequence's first turn.  Returns [(events, outcome)] in the order of parts."""
+    its, res = [], [None] * len(parts)
+    for mk, ans in parts:
+        try:
+            its.append(drive_iter(mk(), ans, cap))
+        except Exception as e:  # noqa: recorded
+            its.append(None)
+            res[len(its) - 1] = ([], {"exc": type(e).__name__, "ret": None})
+    live = [k for k, it in enumerate(its) if it is not None]
+    while live:
+        for k in list(live):
+            try:
+                for _ in range(burst):
+                    next(its[k])
+            except StopIteration as s:
+                res[k] = s.value
+                live.remove(k)
+    return res
+
+
 class Decoder24:
     def __init__(self):
         t = core.spec_tables()
